@@ -487,6 +487,26 @@ def parseGasLimit (fl : Flags) (s : String) : Option Nat :=
 def intrinsicGas (fl : Flags) (create : Bool) (nz z : Nat) : Nat :=
   ((if create then txGasCreate else txGas) + nz * nonZeroByteGas + z * zeroByteGas) * (if fl.p026 then gasMagnification else 1)
 
+/-- `executor.IntrinsicGas(data, creation)` byte for byte, in uint64 arithmetic: the two overflow guards
+    (`(MaxUint64-gas)/perByte < count` → `ErrGasUintOverflow`, here `none`) and the **unchecked** multiplication by
+    `GasMagnification` under Proposal026 (wraps modulo 2^64). `intrinsicGas` above is this function on the byte
+    counts (`Props.C06.intrinsicGas_is_IntrinsicGas`: equal for every input below 2^40 bytes). -/
+def intrinsicGasOf (fl : Flags) (create : Bool) (data : List Nat) : Option Nat :=
+  let g0 := if create then txGasCreate else txGas
+  let nz := (data.filter (fun b => b != 0)).length
+  let z := data.length - nz
+  if (uint64Max - g0) / nonZeroByteGas < nz then none else
+  let g1 := g0 + nz * nonZeroByteGas
+  if (uint64Max - g1) / zeroByteGas < z then none else
+  let g2 := g1 + z * zeroByteGas
+  some (if fl.p026 then (g2 * gasMagnification) % (uint64Max + 1) else g2)
+
+/-- `MinerManager.RemoveMiner(id, account, type, db, left)`: the record is wiped when nothing is left and the account
+    holds no code; otherwise the stake slot becomes `left` (and the status `abort`, which is not ledger state).
+    `getRefundStake` inlines it (`Props.C06.getRefundStake_removes_by_removeMiner`). -/
+def removeMiner (r : Reg) (hasCode : Addr → Bool) (m : MinerRec) (left : Nat) : Reg :=
+  if left = 0 && !hasCode m.account then regDel r m.id else regSet r { m with stake := left }
+
 structure ContractTx where
   src : Addr
   target : Option Addr        -- none = contract creation
